@@ -118,14 +118,15 @@ struct Obs
     // C05 invariants, checked in C++ at every boundary
     bool check_stack = false;
     std::vector<std::string> stack_violations;
-    struct Rec { const void* ctx; int ctx_id; size_t frames; size_t values; long line; std::string inst; long long t_us; };
+    unsigned long long seq = 0;    // global order of records and scheduler visits
+    struct Rec { const void* ctx; int ctx_id; size_t frames; size_t values; long line; std::string inst; long long t_us; unsigned long long seq; };
     std::vector<Rec> recs;
     std::map<const void*, int> ctx_ids;
-    struct Slice { int ctx_id; bool suspended; long long wake_us; long long t_us; size_t idx; size_t nctx; };
+    struct Slice { int ctx_id; bool suspended; long long wake_us; long long t_us; size_t idx; size_t nctx; unsigned long long seq; };
     std::vector<Slice> slices;
     std::atomic<int> inside{ 0 };
     int max_inside = 0;
-    void reset() { count = 0; stack_violations.clear(); recs.clear(); ctx_ids.clear(); slices.clear(); max_inside = 0; }
+    void reset() { seq = 0; count = 0; stack_violations.clear(); recs.clear(); ctx_ids.clear(); slices.clear(); max_inside = 0; }
     int id_of(const void* c) { auto it = ctx_ids.find(c); if (it != ctx_ids.end()) return it->second; int id = (int)ctx_ids.size(); ctx_ids[c] = id; return id; }
 };
 static Obs g_obs;
@@ -195,6 +196,7 @@ static void hook_instruction(void*, rt::runtime& r, const rt::instruction* inst,
             rec.frames = ctx.frames_size(); rec.values = ctx.values_size();
             rec.line = (long)inst->diag_info().line; rec.inst = inst->to_string();
             rec.t_us = g_clock.now_us;
+            rec.seq = ++g_obs.seq;
             g_obs.recs.push_back(std::move(rec));
         }
     }
@@ -212,6 +214,7 @@ static void hook_slice_begin(void*, rt::runtime& r, size_t idx)
     s.wake_us = std::chrono::duration_cast<std::chrono::microseconds>(sp->wakeup_timestamp().time_since_epoch()).count();
     s.t_us = g_clock.now_us; s.idx = idx;
     s.nctx = (size_t)(r.context_end() - r.context_begin());
+    s.seq = ++g_obs.seq;
     g_obs.slices.push_back(s);
 }
 
@@ -454,10 +457,10 @@ static J obs_json()
     if (g_obs.record)
     {
         J recs = J::arr();
-        for (auto& r : g_obs.recs) { J e = J::arr(); e.push(r.ctx_id); e.push((unsigned long)r.frames); e.push((unsigned long)r.values); e.push(r.line); e.push(r.inst); e.push(r.t_us); recs.push(e); }
+        for (auto& r : g_obs.recs) { J e = J::arr(); e.push(r.ctx_id); e.push((unsigned long)r.frames); e.push((unsigned long)r.values); e.push(r.line); e.push(r.inst); e.push(r.t_us); e.push(r.seq); recs.push(e); }
         o.set("recs", recs);
         J sl = J::arr();
-        for (auto& s : g_obs.slices) { J e = J::arr(); e.push(s.ctx_id); e.push(s.suspended); e.push(s.wake_us); e.push(s.t_us); e.push((unsigned long)s.idx); e.push((unsigned long)s.nctx); sl.push(e); }
+        for (auto& s : g_obs.slices) { J e = J::arr(); e.push(s.ctx_id); e.push(s.suspended); e.push(s.wake_us); e.push(s.t_us); e.push((unsigned long)s.idx); e.push((unsigned long)s.nctx); e.push(s.seq); sl.push(e); }
         o.set("slices", sl);
     }
     return o;
